@@ -106,6 +106,26 @@ def jobs(tier):
         for state in CA_STATES:
             for entry in ('send_pgn', 'send_pgn_long', 'send_request'):
                 out.append(Job('C13', 'c13:h_send', {'state': state, 'entry': entry, 'addr': 10 if state == 'normal_immediate' else 200, 'dll': 'j1939-22'}, W=40, wall=120, validate=1))
+    if tier != 'quick':
+        # every history x every entry point on more preferred addresses, both data link layers
+        seen = set((j.params['state'], j.params['entry'], j.params['addr'], j.params.get('dll', 'j1939-21')) for j in out if not j.params.get('sym_contender'))
+        for dll in ('j1939-21', 'j1939-22'):
+            for addr in (0, 1, 100, 127, 128, 200, 246, 247, 251, 252):
+                for state in CA_STATES:
+                    hops = {'moved': 1, 'moved_lost_waiting': 1, 'moved_twice': 2, 'bypassed_moved': 1}.get(state, 0)
+                    if addr + hops > 253:
+                        continue
+                    if state == 'wait_veto' and not 128 <= addr <= 247:
+                        continue    # no veto time in the immediate range: that history is 'normal_immediate'
+                    for entry in (ENTRIES if dll == 'j1939-21' else ('send_pgn', 'send_pgn_long', 'send_request', 'send_message')):
+                        key = (state, entry, addr, dll)
+                        if key in seen:
+                            continue
+                        seen.add(key)
+                        p = {'state': state, 'entry': entry, 'addr': addr}
+                        if dll != 'j1939-21':
+                            p['dll'] = dll
+                        out.append(Job('C13', 'c13:h_send', p, W=40, wall=120, validate=1))
     return out
 
 
@@ -113,7 +133,7 @@ def meta(tier):
     return {
         'bounds': ['claim histories ' + str(CA_STATES) + ' reached by the real claim procedure (contending claims injected with a lower NAME)',
                    'entry points ' + str(ENTRIES) + '; PGN (data page, PDU format, PDU specific), priority, destination, payload, SPN/FMI, pointer symbolic',
-                   'preferred address 128 (veto range) / 10 (immediate range)', 'NAME of the contender that takes the address away: symbolic, any valid 64-bit NAME below ours (extra jobs)'],
+                   'preferred address 128 (veto range) / 10 (immediate range); 0, 100, 252, 253 for selected histories' + ('' if tier == 'quick' else '; thorough: every history x entry point on 0, 1, 100, 127, 128, 200, 246, 247, 251, 252, both data link layers') + ',', 'NAME of the contender that takes the address away: symbolic, any valid 64-bit NAME below ours (extra jobs)'],
         'outside': ['other preferred addresses', 'J1939-22: only send_pgn / send_request'],
         'assumptions': ['the cyclic DM1 sender runs from the timer: only "no DM1 frame while not operational" is claimed for it (that the exception then ends the job thread is recorded as an observation)'],
     }
